@@ -236,8 +236,8 @@ PROPS["C03"] = {
                   "loops, dropped or wrong certificates, other genesis keys); every accepted case is re-walked against the specification.",
     "level_note": "Integrity bits of each served certificate are computed by the harness with the real primitives (C04 hash, STM verifier "
                   "of C01, Ed25519); hashes are abstract identifiers, collision-freeness enters as HashBinding. The client's cache loops "
-                  "are modelled and proved; their correspondence run lives in the client harness (c03c).",
-    "harness": [("harness", "c03")],
+                  "are modelled, proved and compared with the real mithril-client verifier (feature unstable, MemoryCertificateVerifierCache) on cold, warm and partially warm caches (bin c03c).",
+    "harness": [("harness", "c03"), ("harness-client", "c03c")],
     "anchors": ["mithril-common/src/certificate_chain/certificate_verifier.rs", "mithril-common/src/entities/certificate.rs",
                 "mithril-common/src/entities/epoch.rs", "mithril-common/src/crypto_helper/genesis/verifier.rs",
                 "mithril-client/src/certificate_client/verify.rs"],
